@@ -1,10 +1,9 @@
-SPECIFICATION SpecSync
+SPECIFICATION Spec
 CONSTANTS
   N = 4
-  MaxView = 1
+  MaxView = 0
   Height = 1
   InitSilentSets <- SilentAny
   MaxSilentChanges = 0
-INVARIANTS Agreement
-PROPERTIES Progress
+INVARIANTS Agreement AcceptJustified CommitLock
 CHECK_DEADLOCK FALSE
